@@ -62,10 +62,22 @@ func condLits(cond ssa.Value, val bool) []Lit {
 		}
 	case *ssa.BinOp:
 		switch c.Op {
-		case token.EQL:
-			return []Lit{{Kind: "eq", X: c.X, Y: c.Y, Pos: val}}
-		case token.NEQ:
-			return []Lit{{Kind: "eq", X: c.X, Y: c.Y, Pos: !val}}
+		case token.EQL, token.NEQ:
+			pos := val
+			if c.Op == token.NEQ {
+				pos = !val
+			}
+			out := []Lit{{Kind: "eq", X: c.X, Y: c.Y, Pos: pos}}
+			// a comparison with a boolean constant (`f(x) == Deny` where Deny is false)
+			// also says that the other operand is true / false
+			for _, p := range [][2]ssa.Value{{c.X, c.Y}, {c.Y, c.X}} {
+				if k, isK := p[1].(*ssa.Const); isK {
+					if bv, okb := constBool(k); okb {
+						out = append(out, condLits(p[0], pos == bv)...)
+					}
+				}
+			}
+			return out
 		case token.LSS:
 			return []Lit{{Kind: "lt", X: c.X, Y: c.Y, Pos: val}}
 		case token.GEQ:
@@ -133,7 +145,72 @@ func edgeLits(b *ssa.BasicBlock, idx int, pred *ssa.BasicBlock) (lits []Lit, fea
 	if k, ok := cond.(*ssa.Const); ok && k.Value != nil && k.Value.Kind() == constant.Bool {
 		return nil, constant.BoolVal(k.Value) == val
 	}
-	return condLits(cond, val), true
+	lits = condLits(cond, val)
+	if pred == nil {
+		return lits, true
+	}
+	// A comparison of a phi of THIS block: on the entry from pred the phi is its operand for
+	// pred ("disposition chaining": disp = f(); if disp == ok { disp = g() }; if disp == ok {...}).
+	// The substituted literal is ADDED to the original one (both hold on this edge): guards
+	// written against the phi form keep matching.
+	for _, orig := range append([]Lit{}, lits...) {
+		l, changed := orig, false
+		for _, side := range []*ssa.Value{&l.X, &l.Y} {
+			if *side == nil {
+				continue
+			}
+			if phi, isPhi := (*side).(*ssa.Phi); isPhi && phi.Block() == b {
+				for k, p := range b.Preds {
+					if p == pred {
+						*side = phi.Edges[k]
+						changed = true
+					}
+				}
+			}
+		}
+		if !changed {
+			continue
+		}
+		if l.Kind == "eq" {
+			if kx, okx := l.X.(*ssa.Const); okx {
+				if ky, oky := l.Y.(*ssa.Const); oky && kx.Value != nil && ky.Value != nil &&
+					kx.Value.Kind() == ky.Value.Kind() {
+					if constant.Compare(kx.Value, token.EQL, ky.Value) != l.Pos {
+						return nil, false
+					}
+					continue
+				}
+			}
+		}
+		lits = append(lits, l)
+	}
+	// ... and the literal must not contradict the one established by the edge pred -> b
+	for pi, ps := range pred.Succs {
+		if ps != b || (len(pred.Succs) == 2 && pred.Succs[0] == pred.Succs[1]) {
+			continue
+		}
+		in, _ := edgeLits(pred, pi, nil)
+		for _, l := range lits {
+			for _, m := range in {
+				if l.Kind == m.Kind && l.Pos != m.Pos && sameOperand(l.X, m.X) && (l.Kind != "eq" && l.Kind != "lt" || sameOperand(l.Y, m.Y)) {
+					return nil, false
+				}
+			}
+		}
+	}
+	return lits, true
+}
+
+func sameOperand(a, b ssa.Value) bool {
+	if a == b {
+		return true
+	}
+	ka, ok1 := a.(*ssa.Const)
+	kb, ok2 := b.(*ssa.Const)
+	if ok1 && ok2 && ka.Value != nil && kb.Value != nil {
+		return constant.Compare(ka.Value, token.EQL, kb.Value)
+	}
+	return false
 }
 
 // ---------------------------------------------------------------------------
@@ -350,6 +427,36 @@ func (e *E1) callGuardDepth(kind PassKind, depth int, names ...string) Guard {
 		est[h] = false // recursion guard
 		sub := NewE1(e.C, h)
 		g := sub.callGuardDepth(kind, d-1, names...)
+		// a predicate wrapper: `return guard(x) != 0` - the result is true exactly on the
+		// literal that passes the guard
+		if res := h.Signature.Results(); res.Len() == 1 {
+			if bt, isB := res.At(0).Type().Underlying().(*types.Basic); isB && bt.Kind() == types.Bool {
+				all, n := true, 0
+				for _, b := range h.Blocks {
+					r, isR := b.Instrs[len(b.Instrs)-1].(*ssa.Return)
+					if !isR {
+						continue
+					}
+					n++
+					if k, isK := r.Results[0].(*ssa.Const); isK {
+						if bv, okb := constBool(k); okb && !bv {
+							continue // `return false` never passes
+						}
+					}
+					hit := false
+					for _, l := range condLits(r.Results[0], true) {
+						if g.Match(l) {
+							hit = true
+						}
+					}
+					all = all && hit
+				}
+				if all && n > 0 {
+					est[h] = true
+					return true
+				}
+			}
+		}
 		sinks := sub.SuccessReturns()
 		if len(sinks) == 0 {
 			return false
@@ -560,6 +667,10 @@ func (e *E1) classify(v ssa.Value, b *ssa.BasicBlock, seen map[ssa.Value]bool) r
 	case *ssa.Phi:
 		if seen[v] {
 			return retFail
+		}
+		// what the block itself knows about the merged value (`if disp != pForward { return disp }`)
+		if r := refine(retMaybe, v, blockLits(b)); r != retMaybe {
+			return r
 		}
 		seen[v] = true
 		res := retFail
